@@ -45,12 +45,6 @@ func (c *BindingManager) AddBinding(remoteDevice api.DeviceRemoteInterface, data
 		return err
 	}
 
-	// a local feature can only have one remote binding
-	bindings := c.BindingsOnFeature(*serverFeature.Address())
-	if len(bindings) > 0 {
-		return errors.New("the server feature already has a binding")
-	}
-
 	clientFeature := remoteDevice.FeatureByAddress(data.ClientAddress)
 	if clientFeature == nil {
 		return fmt.Errorf("client feature '%s' in remote device with ski '%s' not found", data.ClientAddress, remoteDevice.Ski())
@@ -59,14 +53,22 @@ func (c *BindingManager) AddBinding(remoteDevice api.DeviceRemoteInterface, data
 		return err
 	}
 
+	c.mux.Lock()
+	defer c.mux.Unlock()
+
+	// a local feature can only have one remote binding
+	// (checked in the same critical section as the insertion, so concurrent requests can not both pass)
+	for _, item := range c.bindingEntries {
+		if reflect.DeepEqual(*item.ServerFeature.Address(), *serverFeature.Address()) {
+			return errors.New("the server feature already has a binding")
+		}
+	}
+
 	bindingEntry := &api.BindingEntry{
 		Id:            c.bindingId(),
 		ServerFeature: serverFeature,
 		ClientFeature: clientFeature,
 	}
-
-	c.mux.Lock()
-	defer c.mux.Unlock()
 
 	c.bindingEntries = append(c.bindingEntries, bindingEntry)
 
